@@ -33,6 +33,16 @@ T = {
  "C20-a": ("encoding/asn1/asn1.go parseUTCTime: early return in permissive mode skips the 2050 century fix-up", "AllowPermissiveParsing = true and a UTCTime with YY in 50..68: decodes to 20YY instead of 19YY", "encoding/asn1"),
  "C22-a": ("encoding/asn1/marshal.go makeField: 'r >= utf8.RuneSelf ||' dropped from the PrintableString test", "an untyped string with a non-ASCII rune whose low byte is a PrintableString character and no disqualifying rune (\"тест\", \"中\")", "x509/pkix"),
  "C27-a": ("tls/auth.go verifyHandshakeSignature: RSA-PSS case lost its 'expected an RSA public key' else branch", "an RSA-PSS-labelled handshake signature checked against an ECDSA/Ed25519 certificate key: accepted without verification", "tls"),
+ "C04-a": ("x509/x509.go parseCertificate: key-usage loop runs over 8 bits instead of 9", "a template whose KeyUsage includes KeyUsageDecipherOnly (bit 8, second byte of the BIT STRING)", "x509"),
+ "C05-a": ("x509/x509.go CreateCertificateRequest: '|| len(template.IPAddresses) > 0' dropped from the SAN guard", "a CSR template whose only SANs are IP addresses", "x509"),
+ "C02-b": ("x509/x509.go CheckSignatureFromKey, *AugmentedECDSA branch: the asn1.Unmarshal error is no longer returned", "an ECDSA parent and a child whose ECDSA signature value is not a well-formed DER (r, s) pair: nil *big.Int dereference", "x509"),
+ "C06-b": ("x509/x509.go parseCertificate: self-signed pre-check compares Subject.String() and Issuer.String() instead of the raw DER names", "issuer and subject that render to the same string from different DER (PrintableString vs UTF8String), signed by the certificate's own key", "x509"),
+ "C10-b": ("verifier/graph.go AddCert: the existing child edge set is looked up on the certificate's own node instead of the issuer node", "an issuer already in the graph that certifies the same (subject, key) twice, or a self-signed child cross-signed later", "verifier"),
+ "C16-b": ("ct/serialization.go serializeV1STHSignatureInput: 'TreeSize < 0' became 'TreeSize <= 0'", "a signed tree head of the empty log (tree size 0)", "ct"),
+ "C24-b": ("tls/handshake_server.go pickCipherSuite: deprioritizeAES applied to the client's list instead of the server's in the server-preference branch", "PreferServerCipherSuites, default suite list (Config.CipherSuites nil), TLS <= 1.2, client's first known suite not AES-GCM", "tls"),
+ "C26-b": ("tls/key_schedule.go exportKeyingMaterial: Derive-Secret transcript is Hash(context) instead of Hash(\"\")", "a TLS 1.3 exporter call with a non-empty context", "tls"),
+ "C30-b": ("tls/handshake_messages.go certificateRequestMsg.unmarshal: 'len(cas) < 2' became 'len(cas) <= 2'", "a CertificateRequest whose last certificate-authority name is empty", "tls"),
+ "C32-b": ("tls/key_agreement.go ecdheKeyAgreement.processServerKeyExchange: the 'len(sig) < 2' check runs before the signature-and-hash bytes are stripped", "a TLS 1.2 ECDHE ServerKeyExchange that ends at or one byte after the signature-and-hash bytes: index out of range", "tls"),
  "C32-a": ("tls/conn.go readRecordOrCCS: 'len(data) != 1' became 'len(data) > 1' for change_cipher_spec", "a change_cipher_spec record with an empty body after the version is fixed: index out of range", "tls"),
 }
 res = {}
